@@ -13,8 +13,11 @@
 (*        fall on either side (the Rust code multiplies in floating point).      *)
 (*  TRUE (map-free): only what the property says without fixing the xi -> index  *)
 (*        map: every returned value is in 0..m-1 and new in its block of m draws *)
-(*        since new/reset, every logged get_values() is a permutation of 0..m-1, *)
-(*        and one is logged at every end of block.                               *)
+(*        since new/reset, and the get_values() logged at the end of a block of  *)
+(*        m draws (one is logged at every end of block) is a permutation of      *)
+(*        0..m-1.  What get_values() shows in the middle of a block or right     *)
+(*        after a reset is not fixed by the property (an implementation may      *)
+(*        restore its table lazily) and is not constrained here.                 *)
 (* The driver validates strictly first; a strict rejection that the map-free     *)
 (* validation accepts is drift of the map (decided by the measure of the         *)
 (* pre-images), a map-free rejection is a violation.                             *)
@@ -52,7 +55,7 @@ TraceInit == l = 2 /\ m = 0 /\ v = <<>> /\ last = 0 /\ blk = <<>>
 
 IsEvent(e) == l <= Len(Rec) /\ Rec[l].op = e /\ l' = l + 1
 
-ObsV(r, want) == Has(r, "v") => (IF Free THEN IsPerm(r.v, Len(want)) ELSE r.v = want)
+ObsV(r, want) == Has(r, "v") => (IF Free THEN TRUE ELSE r.v = want)
 
 New == /\ IsEvent("new")
        /\ Rec[l].m >= 1
@@ -81,7 +84,7 @@ Draw == /\ IsEvent("next")
               /\ (l0 + 1 = m) => Has(r, "v")
               /\ IF Free
                    THEN /\ v' = v
-                        /\ Has(r, "v") => IsPerm(r.v, m)
+                        /\ (l0 + 1 = m) => IsPerm(r.v, m)
                    ELSE /\ LimbsOk(r)
                         /\ \E o \in Offsets(r, k) :
                              /\ v[l0 + o + 1] = r.ret
